@@ -22,7 +22,7 @@ RULE = (
     "re-send, replace).  Invariants after every step: (I1) str(m) of every message object ever merged "
     "equals its value before its first merge, and so does what its accessors expose (story / stories / "
     "item(s) / source / target IDs and the content of carried stories and items); (I2) str(A) == str(A'); (I3) str(B) == str(B') and the "
-    "re-used object raises exactly when the fresh copy does; (I4) no Element object belongs to two of {A, A', B, B', the six most recent message objects} (shared mutable content, even where no message can yet make it visible), nor does a non-empty attribute dictionary; (I6) a message object edited through its public .xml and merged again contributes its current content, like a fresh parse of its str(); (I5, collections) MosReader objects handed to a second MosCollection give the same result as freshly built readers.  Non-trivial = a step whose message "
+    "re-used object raises exactly when the fresh copy does; (I4) no Element object belongs to two of {A, A', B, B', the six most recent message objects} (shared mutable content, even where no message can yet make it visible), nor does a non-empty attribute dictionary; (I6) a message object edited through its public .xml and merged again contributes its current content, like a fresh parse of its str() (one edit in three also swaps the whole message element for a copy); the live side of each pair is merged through msg.merge(ro) or ro += msg (chosen by the message text), the reference side always through +=; (I5, collections) MosReader objects handed to a second MosCollection give the same result as freshly built readers.  Non-trivial = a step whose message "
     "edits a story that an earlier message object carried, or a re-use step of a payload-carrying "
     "object; distinct = distinct (state text, message text) digests.")
 ASSUMPTIONS = []
@@ -37,13 +37,21 @@ KINDS = ([k for k in build.ALL_KINDS if k != 'roDelete'] +   # roDelete once: it
           'EAItemDelete', 'EAItemSwap', 'EAItemMove', 'roItemDelete', 'EAItemInsert', 'roDelete'])
 
 
-def _merge(ro, obj):
-    """-> exception type name or None"""
+def _merge(ro, obj, route='add'):
+    """-> exception type name or None.  route 'merge': the other documented route, obj.merge(ro)
+    (what `+` calls after its completed guard) - used for the live side of a pair only."""
     try:
-        ro += obj
+        if route == 'merge' and not ro.completed:
+            obj.merge(ro)
+        else:
+            ro += obj
         return None
     except Exception as e:
         return type(e).__name__
+
+
+def _route(text, salt=''):
+    return 'merge' if h64(text, salt) % 2 == 0 else 'add'
 
 
 class World:
@@ -124,7 +132,7 @@ class World:
             info['edit_inside_carried'] = True
             info['carried_by'] = self.carried[tgt]
             self.edited_since.add(tgt)
-        e1 = _merge(self.a, obj)
+        e1 = _merge(self.a, obj, _route(text))
         e2 = _merge(self.a_ref, MosFile.from_string(text))
         if e1 != e2:
             self.fails.append(Failure(PROP, f'C13|{kind}|live-vs-fresh-exception-differs',
@@ -154,11 +162,20 @@ class World:
         has NOW, exactly as a fresh parse of str(obj) would give."""
         from checks.c20 import msg_view
         obj, _s0, _text, kind = self.objs[-1]
-        body = obj.base_tag if getattr(obj, 'base_tag', None) is not None else obj.xml
+        # the message element, looked up in the tree itself (not through the library's base_tag)
+        tagname = getattr(getattr(obj, 'base_tag', None), 'tag', None)
+        body = next((c for c in obj.xml if c.tag == tagname), obj.xml)
         cands = [e for e in body.iter() if e.tag in ('storySlug', 'itemSlug', 'p', 'roSlug', 'objID') and len(e) == 0]
         if not cands:
             return None
         cands[n % len(cands)].text = f'edited {n}'
+        if n % 3 == 0 and body is not obj.xml:
+            # ... and the whole message element swapped for an (edited) copy of itself
+            import copy
+            parent = obj.xml
+            k = list(parent).index(body)
+            parent.remove(body)
+            parent.insert(k, copy.deepcopy(body))
         text = str(obj)
         self.objs[-1] = (obj, text, text, kind)
         self.views[-1] = msg_view(obj)
@@ -177,7 +194,7 @@ class World:
         info = {'kind': kind, 'payload': bool(m.payload) and m.level == 'story',
                 'after_edit': bool(set(p for p in m.payload_ids() if p) & self.edited_since)
                 if m.level == 'story' else False}
-        e1 = _merge(self.b, obj)
+        e1 = _merge(self.b, obj, _route(text, 'b'))
         e2 = _merge(self.b_ref, MosFile.from_string(text))
         if e1 != e2:
             self.fails.append(Failure(PROP, f'C13|{kind}|reused-vs-fresh-exception-differs',
